@@ -115,6 +115,11 @@ inline std::vector<Expect> analyse(Chain const& c, Inputs const& in, int narrowe
             e.exponent = std::min(A.exponent, B.exponent);
             e.digits = std::max(A.digits + A.exponent, B.digits + B.exponent) - e.exponent + 1;
             e.value = n.kind == ADD ? mpq_class(A.value + B.value) : mpq_class(A.value - B.value);
+            // inherited (multiply-predicate-division-bias, see MUL and CMP): the coarser operand is aligned by a checked multiplication by 2^shift
+            if ((c.round == R_NEAREST || c.round == R_TIE_POS) && A.exponent != B.exponent) {
+                int d = (A.exponent > B.exponent ? A.digits : B.digits) + std::abs(A.exponent - B.exponent);
+                if (storage_digits(d, narrowest_digits) == d && d >= 31) e.cause = "multiply-predicate-division-bias/";
+            }
             break;
         }
         case MUL:
